@@ -66,6 +66,7 @@ type tcase struct {
 	Inflate  int                    `json:"inflate"`
 	Frag     []int                  `json:"frag"`
 	ReadLim  int                    `json:"readlimit"`
+	Final    bool                   `json:"final"`  // C15 inflate: the deflate stream ends with a BFINAL block
 	Splice   bool                   `json:"splice"` // C12: a ping travels between the fragments of every fragmented message
 }
 
@@ -547,6 +548,15 @@ func runC13(c *tcase, trk *tracker) {
 }
 
 // ---- C15 ----
+// deflateFinal ends the stream with a BFINAL block (flate.Writer.Close) instead of a sync flush: RFC 7692 7.2.3.5 allows it
+func deflateFinal(b []byte) []byte {
+	var buf bytes.Buffer
+	w, _ := flate.NewWriter(&buf, 6)
+	w.Write(b)
+	w.Close()
+	return buf.Bytes()
+}
+
 func deflateRaw(b []byte) []byte {
 	var buf bytes.Buffer
 	w, _ := flate.NewWriter(&buf, 6)
@@ -589,6 +599,21 @@ func runC15(c *tcase, trk *tracker) {
 		// an incomplete frame dripped in: buffered unparsed input must stay within the read limit
 		p := bytes.Repeat([]byte{'x'}, c.ReadLim*4)
 		wire := encodeFrame(true, 0, 2, p, true, rnd)
+		if c.Inflate > 0 {
+			// the header declares a frame of c.Inflate bytes, only the first 2 x read limit bytes ever arrive
+			wire = encodeFrame(true, 0, 2, make([]byte, c.Inflate), true, rnd)[:c.ReadLim*2]
+		}
+		trk.mu.Lock()
+		trk.peak = trk.live
+		base0 := trk.live
+		trk.mu.Unlock()
+		defer func() {
+			trk.mu.Lock()
+			pk := trk.peak - base0
+			trk.mu.Unlock()
+			// what is reserved for unparsed input stays in the order of the read limit, whatever the header declares
+			tr.Emit(hlib.Ev{"ev": "retained", "n": pk, "readlimit": 4*c.ReadLim + 4096, "lastread": 0, "peak": true})
+		}()
 		last := 0
 		_ = feed(recv, wire, c.Cut, rnd, func(n int) {
 			last = n
@@ -606,7 +631,36 @@ func runC15(c *tcase, trk *tracker) {
 	} else if c.Kind == "inflate" {
 		raw := content("comp", c.Inflate, rnd, true)
 		total = len(raw)
-		wire = encodeFrame(true, 4, 1, deflateRaw(raw), true, rnd) // RSV1 = bit value 4 in the 3-bit field
+		z := deflateRaw(raw)
+		if c.Final {
+			z = deflateFinal(raw)
+		}
+		wire = encodeFrame(true, 4, 1, z, true, rnd) // RSV1 = bit value 4 in the 3-bit field
+	} else if c.Kind == "zwire" {
+		// compressed data whose WIRE size alone exceeds the limit (empty stored blocks inflate to nothing): refused like any
+		// other oversize message, as one frame or as fragments of a compressed message
+		var z []byte
+		for len(z) <= c.Inflate {
+			z = append(z, 0x00, 0x00, 0x00, 0xff, 0xff)
+		}
+		total = len(z)
+		if len(c.Frag) > 1 {
+			per := len(z)/len(c.Frag) + 1
+			for i := 0; len(z) > 0; i++ {
+				n := per
+				if n > len(z) {
+					n = len(z)
+				}
+				rsv, op := 0, 0
+				if i == 0 {
+					rsv, op = 4, 2
+				}
+				wire = append(wire, encodeFrame(n == len(z), rsv, op, z[:n], true, rnd)...)
+				z = z[n:]
+			}
+		} else {
+			wire = encodeFrame(true, 4, 2, z, true, rnd)
+		}
 	} else {
 		op := 2
 		for i, n := range c.Frag {
